@@ -646,6 +646,9 @@ class Analysis:
             if m.status != 'ok' or not self.emits_wait(m.entry):
                 continue
             for a in by_root.get(key, []):
+                if not self.emits_wait(a.node):
+                    # reached through a forwarding sink into a pipeline without a loop: that emit cannot wait
+                    continue
                 if a.seq < m.done and (a.end is None or a.end > m.done):
                     V.append(Violation('C03', 'C03.early_completion', m.done,
                                        'emit #%d of producer %d completed at t=%g while sink %d was still handling %r (finished %s)'
